@@ -1,6 +1,6 @@
 (* C07 - Clones are faithful, self-contained and independent of the original. Property theorems only. *)
 From Coq Require Import List ZArith String.
-From SV Require Import Base.Base IR.State IR.NS IR.Ops Xform.Clone Proofs.CloneSmall Proofs.C01_full Proofs.Inv1a Proofs.Inv2a Proofs.CloneFrame Proofs.CloneStart Proofs.NsInv Proofs.InvW Proofs.UniqInv Proofs.CloneFaith Proofs.CloneFull Proofs.CloneNetInv Proofs.CloneDefStruct Proofs.CloneLibInv Proofs.CloneAnyInv Proofs.CloneData Proofs.CloneDataNet Proofs.Locality Proofs.LocalityStep Proofs.LocalityHist.
+From SV Require Import Base.Base IR.State IR.NS IR.Ops Xform.Clone Proofs.CloneSmall Proofs.C01_full Proofs.Inv1a Proofs.Inv2a Proofs.CloneFrame Proofs.CloneStart Proofs.NsInv Proofs.InvW Proofs.UniqInv Proofs.CloneFaith Proofs.CloneFull Proofs.CloneNetInv Proofs.CloneDefStruct Proofs.CloneLibInv Proofs.CloneAnyInv Proofs.CloneData Proofs.CloneDataNet Proofs.Locality Proofs.LocalityStep Proofs.LocalityHist Proofs.LocalityClone Proofs.LocalityNet.
 Import ListNotations.
 
 (* cloning a wire: one fresh element, no pins listed, nothing else changes *)
@@ -432,15 +432,82 @@ Theorem C07_copy_region_containment : forall s s', CloneOK s s' ->
 Proof. exact copy_region_kids. Qed.
 Print Assumptions C07_copy_region_containment.
 
-(* The clause at full strength. Not proved as a whole: what is missing is the closure theorem for the
-   non-containment links of the copy (RClosed (copy_region (next s)) sF and RClosed of the complement
-   region fun x => x < next s \/ next sF <= x after a completed Netlist.clone): it follows from
-   Inv sF (C07_netlist_clone_keeps_invariant: every link has a back pointer), osame (C07_frame_and_closure:
-   old objects unchanged) and Fresh/FreshT/RefK of s (nothing in s points at an unallocated identifier),
-   plus a statement about the copy's top instance that NetStruct does not export yet; and the exactness of
-   the reference sets of the other side (drefs) under the extra hypothesis that references stay inside
-   the region, which needs one more pass over op_set_reference. With those two, C07_independent_full is
-   C07_independent_of_closed_region instantiated at the two regions. *)
+(* CLOSURE: after a completed Netlist.clone, in every reachable state, the region of the copy - the objects
+   created by the call and everything allocated later - is closed under ALL links (containment both ways,
+   pin-wire joins both ways, outer-pin tables, reference sets, top instance), so it is separated from the
+   objects that existed before. (CI of the frame proof for containment and top; every other link has a
+   back pointer by Inv of the state after the clone, old objects are unchanged, and nothing in the state
+   before the clone points at an unallocated identifier.) *)
+Theorem C07_netlist_clone_copy_region_closed : forall ops n,
+  let s := run ops init in
+  kind_of s n = Some KNetlist -> Closed s n -> snd (fst (clone_netlist s n)) = None ->
+  RClosed (copy_region (next s)) (fst (fst (clone_netlist s n))).
+Proof. exact netlist_clone_copy_region_closed. Qed.
+Print Assumptions C07_netlist_clone_copy_region_closed.
+
+(* the same from the invariants, for the clone of any state and any memo of the frame proof *)
+Theorem C07_copy_region_closed_from : forall s sF m,
+  UF s -> Inv sF -> CI (next s) s sF m -> RClosed (copy_region (next s)) sF.
+Proof. exact copy_region_closed. Qed.
+Print Assumptions C07_copy_region_closed_from.
+
+(* INDEPENDENCE, copy side: after a completed Netlist.clone in any reachable state, for EVERY history h of
+   editing calls - accepted or refused - whose argument objects belong to the copy (or were created by
+   earlier calls of h), every field of every object that existed before the clone is exactly as the clone
+   left it: edits of the copy never show in the original. *)
+Theorem C07_edits_of_copy_never_show_in_original : forall ops n h,
+  let s := run ops init in
+  let sF := fst (fst (clone_netlist s n)) in
+  kind_of s n = Some KNetlist -> Closed s n -> snd (fst (clone_netlist s n)) = None ->
+  Forall (op_in (copy_region (next s))) h ->
+  out_eq (copy_region (next s)) sF (run h sF) /\ RClosed (copy_region (next s)) (run h sF).
+Proof. exact netlist_clone_copy_edits_independent. Qed.
+Print Assumptions C07_edits_of_copy_never_show_in_original.
+
+(* non-vacuity: a two-level design (leaf cell with a port, top cell with a child of the leaf, a cable
+   connected to the child's outer pin, a two-pin port, a top instance) is cloned (copy = objects 13..25);
+   the copy is then edited by a history that creates a cable and connects its wire, disconnects the child's
+   outer pin, renames the leaf, widens the leaf by a port (which gives every instance of the COPY's leaf a
+   new outer pin), removes the child and sets a property on the netlist: all calls are accepted, the copy
+   changes, and the original is as it was *)
+Example C07_edits_of_copy_sample :
+  let ops := [ ONew KNetlist None []; OCreate RLibs 0 (Some (s2l "work"%string)) [] 0 None;
+               OCreate RDefs 1 (Some (s2l "leaf"%string)) [] 0 None; OCreate RPorts 2 (Some (s2l "A"%string)) [] 1 None;
+               OCreate RDefs 1 (Some (s2l "top"%string)) [] 0 None;
+               OCreate RChildren 5 (Some (s2l "u1"%string)) [] 0 (Some 2);
+               OCreate RCables 5 (Some (s2l "n1"%string)) [] 1 None;
+               OCreate RPorts 5 (Some (s2l "P"%string)) [] 2 None;
+               OConnect 8 (POut 6 4) None; OSetTop 0 (TopDef 5) ] in
+  let s := run ops init in
+  let sF := fst (fst (clone_netlist s 0)) in
+  let h := [ OCreate RCables 18 (Some (s2l "n2"%string)) [] 1 None; OConnect 27 (PIn 20) None;
+             ODisconnect 23 (POut 24 17); OSetName 15 (Some (s2l "leaf_edited"%string));
+             OCreate RPorts 15 (Some (s2l "B"%string)) [] 1 None; ORemove RChildren 18 24;
+             ODSet 13 (s2l "k"%string) (VInt 7) ] in
+  (kind_of s 0 = Some KNetlist /\ closedb s 0 = true /\ snd (fst (clone_netlist s 0)) = None /\ next s = 13 /\ next sF = 26) /\
+  Forall (op_in (copy_region (next s))) h /\
+  (kids sF RCables 18 = [22] /\ kids (run h sF) RCables 18 = [22; 26] /\ ipwire (run h sF) 20 = Some 27 /\
+   wpins sF 23 = [POut 24 17] /\ wpins (run h sF) 23 = [] /\ kids (run h sF) RPorts 15 = [16; 28] /\
+   kids sF RChildren 18 = [24] /\ kids (run h sF) RChildren 18 = [] /\ next (run h sF) = 30) /\
+  (kids (run h sF) RCables 5 = [7] /\ wpins (run h sF) 8 = [POut 6 4] /\ ipins (run h sF) 6 = [(4, Some 8)] /\
+   kids (run h sF) RPorts 2 = [3] /\ kids (run h sF) RChildren 5 = [6] /\ drefs (run h sF) 2 = [6] /\
+   data (run h sF) 2 = data s 2 /\ data (run h sF) 0 = data s 0).
+Proof.
+  cbv zeta. split; [vm_compute; repeat split|]. split; [|vm_compute; repeat split].
+  replace (next (run _ init)) with 13 by (vm_compute; reflexivity).
+  repeat (constructor; [cbn; unfold copy_region; repeat split; intros; try discriminate; try (apply PeanoNat.Nat.leb_le; reflexivity)|]).
+  constructor.
+Qed.
+
+(* The clause at full strength. The first half (edits of the copy) is proved above except for the exactness
+   of the reference sets of the original (drefs, the documented exception of out_eq: it needs one more pass
+   over op_set_reference under the hypothesis that references of the region stay inside it, which
+   NetStruct.ns_ref gives for the copy). The second half (edits of the original never show in the copy)
+   is C07_independent_of_closed_region at the complement region fun x => x < next s \/ next sF <= x; what is
+   missing is the closure of that region after the clone: all clauses follow like copy_region_closed from
+   Inv / Fresh / FT / RefK of the state after the clone, except that no instance of the copy is listed in
+   a reference set of an original definition - to be taken from NetStruct (ns_ref, ns_refs), which is
+   stated over the memo's images and does not yet say that every new instance is an image. *)
 Definition C07_independent_full : Prop :=
   forall ops0 n h,
   let s := run ops0 init in
